@@ -87,6 +87,7 @@ DISCARD = {
     'filter_none': S('filter_rows', equals=[{'a': 12345}]),
     'join_delete': S('join', 'r1', ['a'], 'r2', ['a'], {'b': {'aggregate': 'last'}}, source_delete=True, mode='inner'),
     'join_keep': S('join', 'r1', ['a'], 'r2', ['a'], {'b': {'aggregate': 'first'}}, source_delete=False),
+    'join_nofields': S('join', 'r1', ['a'], 'r2', ['a'], {}),       # every default: the source is deleted, nothing is copied
     'dedup': {'op': 'flow', 'steps': [S('set_primary_key', ['a']), S('deduplicate')], 'positions': [90, 91]},
     'select_fields': S('select_fields', ['a']),
 }
@@ -121,6 +122,8 @@ OBSERVERS = {
                              'positions': [50, 50, 50]},
     'validate': S('validate'),
     # documented counter options must not change what is persisted
+    'dump_dotted': S('dump_to_path', {'$path': 'dumpdot'}, counters={'datapackage-rowcount': 'stats.rowcount', 'resource-rowcount': 'stats.rows',
+                                                                      'datapackage-bytes': 'stats.bytes'}),
     'dump_nocounters': S('dump_to_path', {'$path': 'dumpnc'}, counters={'datapackage-bytes': None, 'resource-bytes': None,
                                                                         'resource-hash': None}),
     'dump_zip_nocounters_json': S('dump_to_zip', {'$path': 'outnc.zip'}, format='json',
@@ -138,7 +141,7 @@ OBSERVERS = {
                                                     S('dump_to_zip', {'$path': 'out3.zip'})],
                            'positions': [50, 50]},
 }
-OBS_INITIAL_ONLY = {'dump_noforce', 'checkpoint_steps', 'dump_nocounters', 'dump_zip_nocounters_json', 'dump_json+dump_zip'}
+OBS_INITIAL_ONLY = {'dump_dotted', 'dump_noforce', 'checkpoint_steps', 'dump_nocounters', 'dump_zip_nocounters_json', 'dump_json+dump_zip'}
 OBS_POS = 50
 
 # descriptor properties a file dumper documents as its serialisation additions
@@ -148,10 +151,10 @@ FIELD_DROP = ('decimalChar', 'groupChar', 'format', 'trueValues', 'falseValues')
 
 def norm_desc(desc):
     d = copy.deepcopy(desc)
-    for k in e1.STAT_KEYS:
+    for k in tuple(e1.STAT_KEYS) + ('stats',):        # 'stats': where the dump_dotted observer is told to put its counters
         d.pop(k, None)
     for r in d.get('resources', []):
-        for k in RES_DROP:
+        for k in tuple(RES_DROP) + ('stats',):
             r.pop(k, None)
         for f in r.get('schema', {}).get('fields', []):
             for k in FIELD_DROP:
@@ -213,7 +216,7 @@ def run_pipeline(prefix_state, steps, positions, decode=None, twice=False):
         return out
 
 
-def decode_dump(root, allow_discarded=False):
+def decode_dump(root, allow_discarded=False, dotted=False):
     """Independent decode (csv/json std modules + tableschema casts driven by the written descriptor only)."""
     import tableschema
     p = os.path.join(root, 'datapackage.json')
@@ -245,6 +248,14 @@ def decode_dump(root, allow_discarded=False):
         allrows.append(rows_norm(rows))
         if 'count_of_rows' in r and r['count_of_rows'] != len(rows):
             return ('incomplete', 'descriptor reports %r rows for %s, the file holds %d' % (r['count_of_rows'], r['name'], len(rows)))
+    if dotted:
+        # the row counters were configured under nested names: they must be there, and right
+        total = (desc.get('stats') or {}).get('rowcount')
+        if (total or 0) != sum(len(r) for r in allrows):       # (absent and 0 are the same thing for a package without rows)
+            return ('incomplete', 'descriptor reports stats.rowcount=%r, the files hold %d rows' % (total, sum(len(r) for r in allrows)))
+        for r, rows in zip(desc['resources'], allrows):
+            if ((r.get('stats') or {}).get('rows') or 0) != len(rows):
+                return ('incomplete', 'descriptor reports stats.rows=%r for %s, the file holds %d' % ((r.get('stats') or {}).get('rows'), r['name'], len(rows)))
     if not allow_discarded and 'count_of_rows' in desc and desc['count_of_rows'] != sum(len(r) for r in allrows):
         return ('incomplete', 'descriptor reports %r rows in total, the files hold %d' % (desc['count_of_rows'], sum(len(r) for r in allrows)))
     return ('package', names, allrows)
@@ -310,6 +321,7 @@ def decode_for(obs):
         'finalizer': d_fin, 'update_stats': lambda e, o: ('stats', o.get('stats')), 'validate': lambda e, o: None,
         'dump+finalizer_stats': lambda e, o: ('finstats', [x[1] for x in o['log'] if x[0] == 'finstats']),
         'dump_nocounters': lambda e, o: d_path(e, o, 'dumpnc'),
+        'dump_dotted': lambda e, o: decode_dump(e.path('dumpdot'), dotted=True),
         'dump_noforce': lambda e, o: decode_dump(e.path('dumpnf'), allow_discarded=True),
         'checkpoint_steps': lambda e, o: d_stream(e, o, 'checkpoints2/cps%d/stream.ndjson' % OBS_POS),
         'dump_zip_nocounters_json': lambda e, o: d_zip(e, o, 'outnc.zip'),
@@ -320,7 +332,7 @@ def decode_for(obs):
 
 def expected_capture(obs, P):
     """What the observer must have captured, from the stepwise state P at its position."""
-    if obs in ('dump_to_path', 'dump_to_path_json', 'dump_to_zip', 'dump_csv+dump_json', 'dump_json+dump_zip', 'dump_nocounters',
+    if obs in ('dump_to_path', 'dump_to_path_json', 'dump_to_zip', 'dump_csv+dump_json', 'dump_json+dump_zip', 'dump_nocounters', 'dump_dotted',
                'dump_zip_nocounters_json'):
         rs = core.materialise(core.from_state(P), via='results')
         return ('package', P.names(), [rows_norm(r) for r in rs.rows])
